@@ -328,6 +328,8 @@ func (s *Sim) adminResult(a *adminReq, r dragonboat.RequestResult) {
 	switch a.what {
 	case "snapshot":
 		s.orc.onSnapshotCompleted(a.host, r.SnapshotIndex())
+	case "export":
+		s.exportIndex = r.SnapshotIndex()
 	case "add", "addnv", "addwitness":
 		if a.stale {
 			s.ctx.Violate("C07", "stale-ccid-accepted", "%s of replica %d with stale ConfigChangeID %d was applied (ordered config change on)", a.what, a.target.replicaID, a.ccid)
